@@ -97,6 +97,39 @@ func (h *Hist) takeStoreSnap(when string, op Op) {
 	h.Label("snap:store")
 }
 
+// takeStorePrev opens Store.SnapshotPrevious of an open store snapshot as a
+// further handle (frozen at its own first read); the handle it was obtained
+// from stays open and keeps being checked.
+func (h *Hist) takeStorePrev(when string, op Op) {
+	if h.Store == nil || h.storeClosed {
+		return
+	}
+	sh, ok := h.snaps[op.Snap]
+	if !ok || sh.kind != "store" {
+		return
+	}
+	if _, dup := h.snaps[op.ID]; dup {
+		return
+	}
+	h.FS.HarnessBegin() // the call reads the file from this goroutine: not a persister operation
+	prev, err := h.Store.SnapshotPrevious(sh.snap)
+	h.FS.HarnessEnd()
+	if err != nil {
+		h.Failf("%s: Store.SnapshotPrevious of open store snapshot #%d: %v", when, op.Snap, err)
+	}
+	h.Label("snap:store-previous-call")
+	if prev == nil {
+		return
+	}
+	want, rerr := ReadTree(prev)
+	if rerr != nil {
+		prev.Close()
+		h.Failf("%s: first read of the snapshot returned by SnapshotPrevious(#%d): %v", when, op.Snap, rerr)
+	}
+	h.snaps[op.ID] = &snapHandle{snap: prev, want: want, kind: "store", fileAtOpen: sh.fileAtOpen, multi: sh.multi}
+	h.Label("snap:store-previous")
+}
+
 func (h *Hist) readSnap(when string, id int) {
 	sh, ok := h.snaps[id]
 	if !ok {
